@@ -100,7 +100,7 @@ func HarnessC02_TokLoginAck()     { c02Diff([]byte{byte(TDS_LOGINACK)}, c02N(10,
 func HarnessC02_TokMsg()          { c02Diff([]byte{byte(TDS_MSG)}, c02N(6, 8), nil) }
 func HarnessC02_TokParamFmt()     { c02Diff([]byte{byte(TDS_PARAMFMT)}, c02N(6, 12), nil) }
 func HarnessC02_TokParamFmt2()    { c02Diff([]byte{byte(TDS_PARAMFMT2)}, c02N(8, 14), nil) }
-func HarnessC02_TokRowFmt()       { c02Diff([]byte{byte(TDS_ROWFMT)}, c02N(9, 12), nil) }
+func HarnessC02_TokRowFmt()       { c02Diff([]byte{byte(TDS_ROWFMT)}, c02N(7, 10), nil) }
 func HarnessC02_TokRowFmt2()      { c02Diff([]byte{byte(TDS_ROWFMT2)}, c02N(8, 16), nil) }
 func HarnessC02_TokCapability()   { c02Diff([]byte{byte(TDS_CAPABILITY)}, c02N(5, 8), nil) }
 func HarnessC02_TokEnvChange()    { c02Diff([]byte{byte(TDS_ENVCHANGE)}, c02N(5, 10), nil) }
